@@ -551,6 +551,20 @@ func Spec() *core.Spec {
 										}
 									}()
 									e.Clear()
+									if (k.enc == "ttlv" || k.enc == "text") && strings.HasSuffix(k.target.Name, "Message") && rr.P(1, 3) {
+										// another message (of whatever version) goes through the encoder first and stays in its
+										// buffer: this one is appended behind it, under its own header's version
+										for off := 1; off < len(cases); off++ {
+											o := &cases[(k.id+off*7)%len(cases)]
+											if !o.decode && o.enc == k.enc && strings.HasSuffix(o.target.Name, "Message") && o.id != k.id {
+												first := encodeWith(e, o)
+												both := encodeWith(e, k)
+												record(k.id, h(both[len(first):]))
+												c.Count("messages_appended_behind_another", 1)
+												return
+											}
+										}
+									}
 									record(k.id, h(encodeWith(e, k)))
 								}()
 								continue
